@@ -12,6 +12,60 @@ ID_C08M = ("C08 revision archived although an ObjectSlice referenced by the next
            "(its contents are unknown; the pass has to fail instead)")
 ID_C08S = ("C08 object present in the outgoing and the incoming revision deleted during the handover "
            "(incoming revision keeps it in an ObjectSlice)")
+ID_C08T = ("C08 object present in the outgoing and the incoming revision deleted during the handover "
+           "(status.controllerOf of the outgoing revision stops at its first phase with a failing probe)")
+ID_C08L = ("C08 object present in the outgoing and the incoming revision deleted during the handover "
+           "(a paused pass of the outgoing revision could not see it: cache label removed by the teardown of an older revision)")
+ID_C08A = ("C08 object present in the outgoing and the incoming revision deleted during the handover "
+           "(outgoing revision archived on the Available report of a revision that does not control the object)")
+
+
+def handover_identity(sc, obs):
+    """Which of the known ways led to the first handover violation of a history; None = none of them."""
+    pre_sets, pre_store = sc["sets"], sc["store"]
+    for st, so in zip(sc["steps"], obs["steps"]):
+        if st["op"] == "set":
+            r = next((s for s in pre_sets if s["name"] == st["name"]), None)
+            if r is not None and r["life"] == 2:
+                gone = [o for o in pre_store if not any(p["gk"] == o["gk"] and p["ns"] == o["ns"] and p["name"] == o["name"] for p in so["post"])]
+                newer = sorted([s for s in pre_sets if s["revision"] > r["revision"]], key=lambda s: s["revision"])
+                if gone and newer and newer[0]["life"] != 2:
+                    nx = newer[0]
+                    shared = [o for o in gone if any(q["gk"] == o["gk"] and q["name"] == o["name"] for p in nx["phases"] for q in p["objects"])]
+                    if shared:
+                        o = shared[0]
+                        if any(k["gk"] == o["gk"] and k["name"] == o["name"] for k in r["ctrlof"]):
+                            return ID_C08A
+                        if not o["cache"]:
+                            return ID_C08L
+                        if len(r["phases"]) > 1:
+                            return ID_C08T
+                        return None
+        pre_sets, pre_store = so["sets"], so["post"]
+    return None
+ID_NS_PREV = "C07 ObjectSet created with an ObjectSet of another namespace in spec.previous (or none created because of one)"
+ID_NS_REQ = "C08 deployment pass pauses / archives / deletes / creates an ObjectSet outside the deployment's namespace"
+
+
+def namespace_violations(sc, obs):
+    """Observational: requests of deployment passes and the foreign ObjectSets themselves. Returns a set of identities."""
+    out = set()
+    if not sc.get("foreign"):
+        return out
+    fnames = {f["name"] for f in sc["foreign"]}
+    show = lambda fs: [(f["name"], f["life"], f["deleting"], f["pbp"]) for f in fs]
+    before = show(sorted(sc["foreign"], key=lambda f: f["name"]))
+    own = {s["name"] for s in sc["sets"]}
+    for st, so in zip(sc["steps"], obs["steps"]):
+        for e in so["events"]:
+            if e.get("otherns"):
+                out.add(ID_NS_REQ)
+            if e["kind"] == "create" and any(p in fnames and p not in own for p in e.get("prev") or []):
+                out.add(ID_NS_PREV)
+        if show(so.get("foreign", [])) != before:
+            out.add(ID_NS_REQ)
+        own = {s["name"] for s in so["sets"]}
+    return out
 
 
 def note_shapes(run):
@@ -44,5 +98,6 @@ def pass_class(st, so):
 
 def slim_obs(obs):
     return [{"res": s["res"], "events": s["events"], "dep": s["dep"],
-             "sets": [{k: x[k] for k in ("name", "life", "revision", "prev", "hash", "pbp", "conds", "ctrlof", "deleting")} for x in s["sets"]]}
+             "sets": [{k: x[k] for k in ("name", "life", "revision", "prev", "hash", "pbp", "conds", "ctrlof", "deleting")} for x in s["sets"]],
+             "foreign": [(x["name"], x["life"], x["deleting"], x["pbp"]) for x in s.get("foreign", [])]}
             for s in obs["steps"]]
